@@ -175,6 +175,20 @@ func (w *world) apply(ws []string) bool {
 		} else {
 			verifhook.Arm(ws[1], time.Duration(ms)*time.Millisecond)
 		}
+	case "dinvoke": // dinvoke <caller> <size> <fill> [max=<n>]: an invocation through the direct-invoke reply path
+		c, _ := strconv.Atoi(ws[1])
+		size, _ := strconv.Atoi(ws[2])
+		pl := stack.Payload(size, ws[3], c)
+		w.extra = []string{"h=" + hashOf(pl)}
+		max := int64(interop.MaxPayloadSize)
+		for _, a := range ws[4:] {
+			if strings.HasPrefix(a, "max=") {
+				n, _ := strconv.Atoi(a[4:])
+				max = int64(n)
+			}
+		}
+		w.callers = append(w.callers, c)
+		s.DirectInvoke(c, pl, traceFor(c), max)
 	case "beh": // beh <base> <term=exit:N|ignore> [execfail]
 		b := stack.Behaviour{}
 		for _, a := range ws[2:] {
@@ -330,6 +344,7 @@ func (w *world) apply(ws []string) bool {
 			}
 			id := s.Unalias(ws[2])
 			s.L.Add("#posted response %s %s", ws[2], hashOf(stack.Payload(size, ws[4], 7)))
+			s.NotePosted(stack.Payload(size, ws[4], 7))
 			w.extra = []string{"h=" + hashOf(stack.Payload(size, ws[4], 7))}
 			s.Do(stack.CallSpec{Actor: "rt", What: "response", Method: "POST", Path: rtAPI + "/runtime/invocation/" + id + "/response", Headers: hdr,
 				Body: stack.Payload(size, ws[4], 7), Proc: p})
@@ -343,6 +358,7 @@ func (w *world) apply(ws []string) bool {
 			id := s.Unalias(ws[2])
 			body := stack.Payload(size, ws[4], 7)
 			s.L.Add("#posted response %s %s", ws[2], hashOf(body))
+			s.NotePosted(body)
 			w.extra = []string{"h=" + hashOf(body)}
 			pr, pw := io.Pipe()
 			w.slow = append(w.slow, slowUpload{func() { _, _ = pw.Write(body[len(body)/2:]); pw.Close() }, slowProc != nil})
